@@ -10,6 +10,7 @@ import (
 	"context"
 	"encoding/json"
 	"fmt"
+	"hash/fnv"
 	"math/rand"
 	"net"
 	"os"
@@ -86,7 +87,9 @@ func main() {
 			Phys []int
 			Tun  []int
 		}](raw)
-		r := rand.New(rand.NewSource(seed*1000003 + int64(i)))
+		h := fnv.New32a()
+		h.Write(raw) // seeded choices depend on the case itself, not on its position: a replayed case repeats them
+		r := rand.New(rand.NewSource(seed*1000003 + int64(h.Sum32())))
 		// real node ids of the model targets 1..nTargets+1 (distinct, 48 bit)
 		ids := map[int]uint64{}
 		used := map[uint64]bool{}
